@@ -64,6 +64,7 @@ type Event struct {
 	St     int      `json:"st,omitempty"`
 	New    bool     `json:"new,omitempty"`
 	D      int      `json:"d,omitempty"`
+	N      int       `json:"n,omitempty"`     // burst: number of other sequences opened at once
 	Flows  []FlowCfg `json:"flows,omitempty"` // flows mode with several flows, each holding a Retry processor
 	U      string    `json:"u,omitempty"`     // ... path of the call ("orders", "other", ...): decides which flows are selected
 }
@@ -161,6 +162,26 @@ func (p *policyRun) resp(e Event) vh.Ev {
 		out["out"] = "error:" + err.Error()
 	}
 	return out
+}
+
+// burst opens n further sequences at once (first eligible response of each): state of many concurrently open
+// sequences.  Their answers are counted, not recorded one by one.
+func (p *policyRun) burst(n, st int) vh.Ev {
+	retried := 0
+	for i := 0; i < n; i++ {
+		p.txn++
+		seq := fmt.Sprintf("%sb%d", p.prefix, p.txn)
+		a, _ := p.plugin.OnResponse(lunarMessages.OnResponse{ID: seq, SequenceID: seq, Status: st, Method: "GET", URL: "api.test/x"}, p.cfg)
+		if _, ok := a.(*actions.ModifyResponseAction); ok {
+			retried++
+		}
+	}
+	for deadline := time.Now().Add(20 * time.Second); p.clk.TimersCreated() < setsSeen.Load(); runtime.Gosched() {
+		if time.Now().After(deadline) {
+			vh.Die("policy: sleepers of the burst did not arm their timers")
+		}
+	}
+	return vh.Ev{"ev": "burst", "n": n, "st": st, "retried": retried}
 }
 
 func (p *policyRun) adv(d int) {
@@ -590,6 +611,10 @@ func main() {
 						}
 					} else if fl != nil {
 						tr.Add(fl.resp(e))
+					}
+				case "burst":
+					if pol != nil {
+						tr.Add(pol.burst(e.N, e.St))
 					}
 				case "adv":
 					if pol != nil {
